@@ -1158,6 +1158,9 @@ func runSession(w *hx.W, rng *rand.Rand, caps imap.CapSet, capsName string, enab
 func body(w *hx.W) {
 	rng := w.Rand("c03")
 	rounds := w.Pick(8, 200)
+	if w.Quick() && w.Shard < 4 {
+		rounds = 3 // these shards also run a long-lived session (below)
+	}
 	for r := 0; r < rounds; r++ {
 		for _, cfg := range []struct {
 			name string
